@@ -67,6 +67,7 @@ func c12Parse(b []byte) (sender int, id uint64, epoch byte, ok bool) {
 }
 
 func c12Case(r *ev.Run, sf stackFactory, g *rng.R, caseID string, G int, replyInCallback bool, outAsk bool) {
+	twoClosers := g.Chance(1, 3)
 	base := libGoroutines()
 	st, err := sf.Build(stackOptsFor(sf.Name, g))
 	if err != nil {
@@ -80,7 +81,7 @@ func c12Case(r *ev.Run, sf stackFactory, g *rng.R, caseID string, G int, replyIn
 		if d == nil {
 			d = map[string]any{}
 		}
-		d["stack"], d["blocked_receivers"], d["reply_in_callback"], d["own_ask_in_flight"] = name, G, replyInCallback, outAsk
+		d["stack"], d["blocked_receivers"], d["reply_in_callback"], d["own_ask_in_flight"], d["two_concurrent_closers"] = name, G, replyInCallback, outAsk, twoClosers
 		r.Violate("C12/"+sig+"/"+name, caseID, desc, d)
 	}
 	var closeReturned atomic.Bool
@@ -275,10 +276,30 @@ func c12Case(r *ev.Run, sf stackFactory, g *rng.R, caseID string, G int, replyIn
 				}
 			}()
 			closeCalled.Store(true)
+			if twoClosers {
+				// a second goroutine closes at the same moment. "After Close has returned" starts with the first of the two to
+				// return; both have to return.
+				second := make(chan struct{})
+				go func() {
+					defer close(second)
+					defer func() {
+						if p := recover(); p != nil {
+							closePanic.Store(fmt.Sprint(p))
+						}
+					}()
+					c12close(func() { target.Close() })
+					closeReturned.Store(true)
+				}()
+				target.Close()
+				closeReturned.Store(true)
+				<-second
+				return
+			}
 			target.Close()
 			closeReturned.Store(true)
 		})
 	}()
+	tornDown := false
 	teardown := func() {
 		releaseAsk()
 		pcancel()
@@ -295,6 +316,7 @@ func c12Case(r *ev.Run, sf stackFactory, g *rng.R, caseID string, G int, replyIn
 		}()
 		select {
 		case <-done:
+			tornDown = true
 		case <-time.After(8 * time.Second):
 			r.Count("teardown_blocked", 1)
 			var texts []string
@@ -386,7 +408,13 @@ func c12Case(r *ev.Run, sf stackFactory, g *rng.R, caseID string, G int, replyIn
 		viol(sig, "after Close: "+m.(string), nil)
 	}
 	teardown()
-	// (4) goroutines started by the swarms of this stack must be gone
+	// (4) goroutines started by the swarms of this stack must be gone. Only when every swarm of the stack has in fact been closed:
+	// if the harness's own peers could not be stopped (on sshswarm a peer's Ask that ignores its context can hold one), their
+	// swarms are still open and their goroutines are not leaks.
+	if !tornDown {
+		r.Inconclusive("c12 leak check skipped: the peers of " + name + " could not be closed")
+		return
+	}
 	var leaked []gor.G
 	for i := 0; i < 100; i++ {
 		leaked = leaked[:0]
@@ -451,7 +479,7 @@ func trimStacks(s string, n int) string {
 }
 
 func runC12(r *ev.Run) {
-	r.Rule = "per stack: G in {1,4,16} goroutines blocked in Receive (and ServeAsk) with non-expiring contexts on one node while two peers tell/ask it continuously, optionally replying from inside the callbacks, optionally with an Ask of its own outstanding (the peer's handler has started and is held); Close at a seeded moment (seeded delays at hub/queue hook points); monitors: Close itself, the blocked calls, a second Close and 50 further calls must not stay parked (two goroutine snapshots 1 s apart) and must not report success; messages created after Close returned (epoch flag set by the harness after Close returned) must never reach a callback; after closing every swarm of the stack no goroutine started by them may remain. non-trivial = deliveries were flowing when Close was called; distinct = (stack, G, reply-in-callback, traffic overlap)"
+	r.Rule = "per stack: G in {1,4,16} goroutines blocked in Receive (and ServeAsk) with non-expiring contexts on one node while two peers tell/ask it continuously, optionally replying from inside the callbacks, optionally with an Ask of its own outstanding (the peer's handler has started and is held); Close at a seeded moment, in a third of the cases from two goroutines at once (seeded delays at hub/queue hook points); monitors: Close itself, the blocked calls, a second Close and 50 further calls must not stay parked (two goroutine snapshots 1 s apart) and must not report success; messages created after Close returned (epoch flag set by the harness after Close returned) must never reach a callback; after closing every swarm of the stack no goroutine started by them may remain. non-trivial = deliveries were flowing when Close was called; distinct = (stack, G, reply-in-callback, traffic overlap)"
 	g := rng.New(r.Seed, "C12", fmt.Sprint(r.Batch))
 	idx := 0
 	for _, sf := range allStacks() {
